@@ -289,17 +289,19 @@ def ellipsisScan : (fuel : Nat) → Option Name → Nat → List PNode → List 
     | [], _ => .error .panic                                     -- `goal_children.peek().unwrap()`
     | _, [] => .error .panic                                     -- `cand_children.peek().unwrap()`
     | g :: _, c :: cs =>
+      -- the trial runs on a copy of the aggregator (`let mut trial = agg.clone()`): whatever it
+      -- writes is dropped, the caller matches the node again once the ellipsis is settled
       match matchNode fuel g c st with
       | .error e => .error e
-      | .ok (.matchedBoth, st1) =>
-        match matchEllipsis agg st1 optName matched [] skipped with
+      | .ok (.matchedBoth, _) =>
+        match matchEllipsis agg st optName matched [] skipped with
         | some st2 => .ok (some .fall, goals, cands, st2)
-        | none => .ok (none, goals, cands, st1)
-      | .ok (_, st1) =>
+        | none => .ok (none, goals, cands, st)
+      | .ok (_, _) =>
         -- `matched.push(cand_children.next().unwrap()); cand_children.peek()?;`
         match cs with
-        | [] => .ok (none, goals, cs, st1)
-        | _ :: _ => ellipsisScan fuel optName skipped goals cs (matched ++ [c]) st1
+        | [] => .ok (none, goals, cs, st)
+        | _ :: _ => ellipsisScan fuel optName skipped goals cs (matched ++ [c]) st
 
 /-- `match_single_node_while_skip_trivial` -/
 def matchSingle : (fuel : Nat) → List PNode → List Tree → σ →
